@@ -951,6 +951,7 @@ type batchQueue struct {
 }
 
 func (b *batchQueue) Put(batch *writeBatch) bool {
+	verifTrace("bq.put", batch)
 	b.cond.L.Lock()
 	defer b.cond.L.Unlock()
 	defer b.cond.Broadcast()
